@@ -785,7 +785,9 @@ fn stream_of(source: &str) -> &str { source.split(':').next().unwrap_or("") }
 impl Suite {
   fn add_finding(&mut self, f: Finding) {
     match f.kind { "divergence" => self.divergences += 1, "property" => self.property_violations += 1, _ => self.selfcheck_failures += 1 }
-    if self.findings.len() < 200 { self.findings.push(f); }
+    // keep property findings and divergences apart: a flood of one kind must not hide the other
+    let same_kind = self.findings.iter().filter(|g| g.kind == f.kind).count();
+    if same_kind < 100 { self.findings.push(f); }
   }
 
   // queue the model comparisons for one value; run the implementation-side checks
@@ -1151,8 +1153,11 @@ pub fn run(opts: &Opts) -> i32 {
   lean.finish();
   std::panic::set_hook(prev_hook);
 
-  for (i, f) in findings.iter().enumerate() {
-    if i >= MAX_REPLAYS { break; }
+  // property findings (concrete failing inputs) first, at most MAX_REPLAYS of each kind
+  let mut ordered: Vec<&Finding> = Vec::new();
+  for kind in ["property", "divergence"] { ordered.extend(findings.iter().filter(|f| f.kind == kind).take(MAX_REPLAYS)); }
+  ordered.extend(findings.iter().filter(|f| f.kind != "property" && f.kind != "divergence").take(MAX_REPLAYS));
+  for (i, f) in ordered.iter().enumerate() {
     let path = format!("{}/finding_{}_{}.json", out_dir, seed, i);
     std::fs::write(&path, serde_json::to_string_pretty(&finding_json(f)).unwrap()).unwrap();
     println!("FINDING kind={} properties={} replay={}", f.kind, f.properties, path);
